@@ -364,8 +364,14 @@ def apply_edit(draw, s, kind, uid, protected=None):
             o = draw(st.sampled_from(cands))
             types[o]["interfaces"].append(i)
             have = {f["name"] for f in types[o]["fields"]}
-            types[o]["fields"] = [json.loads(json.dumps(f)) for f in types[i]["fields"] if f["name"] not in have] + types[o]["fields"]
-            return out(["TypeAddedToInterface"], [i, o], False)
+            copied = [json.loads(json.dumps(f)) for f in types[i]["fields"] if f["name"] not in have]
+            types[o]["fields"] = copied + types[o]["fields"]
+            e = out(["TypeAddedToInterface"], [i, o], False)
+            # the fields the object gained with the interface are additions of this very diff: not edited again
+            # (a later edit of one of them is reported as the FieldAdded it is part of, not under its own class)
+            for f in copied:
+                protected_added.add("%s/%s" % (o, f["name"]))
+            return e
         impl = [o for o in objs if i in types[o].get("interfaces", [])]
         if len(impl) < 2:
             return None
